@@ -8,6 +8,7 @@ Open Scope string_scope.
 (* how __init__ treats one of its parameters *)
 Inductive store :=
   | SV                                  (* self.p = p, the only store, p never rebound *)
+  | SC (validator : string)             (* self.p = f(p), the only store: f's identity (+ source hash) *)
   | SM (how : string)                   (* stored under its name but not verbatim *)
   | SF (parent : string) (q : string)   (* forwarded to parent.__init__ (a class of the table) as q *)
   | SX (q : string)                     (* forwarded to a scikit-learn parent as keyword q *)
@@ -49,13 +50,17 @@ Fixpoint assoc {A} (l : list (string * A)) (k : string) : option A :=
 Definition mem2 (l : list (string * string)) (a b : string) : bool :=
   existsb (fun x => str_eqb (fst x) a && str_eqb (snd x) b) l.
 
-(* constructor contract for parameter p of class cls, treated as st.  `known` = committed exceptions.
+Definition smem1 (x : string) (l : list string) : bool := existsb (str_eqb x) l.
+
+(* constructor contract for parameter p of class cls, treated as st.  `known` = committed exceptions,
+   `vals` = reviewed validators that return their argument unchanged or raise.
    Forwarding is followed through the table (fuel = inheritance depth bound). *)
-Fixpoint param_ok (known : list (string * string)) (t : list class_row) (fuel : nat)
-         (cls p : string) (st : store) : bool :=
+Fixpoint param_ok (vals : list string) (known : list (string * string)) (t : list class_row)
+         (fuel : nat) (cls p : string) (st : store) : bool :=
   mem2 known cls p ||
   match st with
   | SV => true
+  | SC f => smem1 f vals
   | SX q => str_eqb q p
   | SF parent q =>
       str_eqb q p &&
@@ -66,7 +71,7 @@ Fixpoint param_ok (known : list (string * string)) (t : list class_row) (fuel : 
           | Some pr =>
               match r_init pr with
               | Some ps => match assoc ps q with
-                           | Some st' => param_ok known t fuel' parent q st'
+                           | Some st' => param_ok vals known t fuel' parent q st'
                            | None => false
                            end
               | None => false
@@ -80,14 +85,14 @@ Fixpoint param_ok (known : list (string * string)) (t : list class_row) (fuel : 
 
 Definition FUEL : nat := 12.
 
-Definition stores_ok_or_known (known : list (string * string)) (t : list class_row)
-           (r : class_row) : bool :=
+Definition stores_ok_or_known (vals : list string) (known : list (string * string))
+           (t : list class_row) (r : class_row) : bool :=
   match r_init r with
   | None => true
-  | Some ps => forallb (fun x => param_ok known t FUEL (r_key r) (fst x) (snd x)) ps
+  | Some ps => forallb (fun x => param_ok vals known t FUEL (r_key r) (fst x) (snd x)) ps
   end.
 
-Definition stores_ok := stores_ok_or_known [].
+Definition stores_ok := stores_ok_or_known [] [].
 
 (* guard contract.  A known exception is (class-or-"*", owner, method). *)
 Definition gknown := list (string * string * string).
